@@ -333,12 +333,11 @@ func (sh *SessionHandler) handleRPCRenew(s *rhp3.Stream, log *zap.Logger) (contr
 	// calculate the "base" storage cost to the renter and risked collateral for
 	// the host for the data already in the contract. If the contract height did
 	// not increase, base costs are zero since the storage is already paid for.
-	baseRevenue := pt.RenewContractCost
-	var baseCollateral types.Currency
-	if renewal.WindowEnd > existing.Revision.WindowEnd {
-		extension := uint64(renewal.WindowEnd - existing.Revision.WindowEnd)
-		baseRevenue = baseRevenue.Add(pt.WriteStoreCost.Mul64(renewal.Filesize).Mul64(extension))
-		baseCollateral = pt.CollateralCost.Mul64(renewal.Filesize).Mul64(extension)
+	baseRevenue, baseCollateral, err := renewalBaseCosts(existing.Revision, renewal, pt)
+	if err != nil {
+		err := fmt.Errorf("failed to validate renewal: %w", err)
+		s.WriteResponseErr(err)
+		return contracts.Usage{}, err
 	}
 
 	riskedCollateral, lockedCollateral, err := validateContractRenewal(existing.Revision, renewal, hostUnlockKey, req.RenterKey, sh.wallet.Address(), baseRevenue, baseCollateral, pt)
